@@ -167,6 +167,39 @@ def output (n : Nat) (sel : List Nat) : List Nat × List Rat :=
   let uc := uniqueCounts n sel
   (uc.map (·.1), weightsOf uc)
 
+/-! ### one selector object serving a history of `select()` calls
+
+A `TopKSelector` / `GreedySelector` object carries its options only: what a call returns is a function
+of the candidates (and targets) handed to THAT call.  The model of the object is therefore a state
+machine without state — the answer to call `i` is computed from call `i` alone, whatever the object
+was asked before (other candidate lists, other targets, shorter / equal / longer lists). -/
+
+/-- one `TopKSelector.select(y, y_predictors)` call as the model sees it: the individual losses of
+the candidates of this call (w.r.t. the `y` of this call) and what `np.argsort` returned for them -/
+structure TopKCall where
+  losses : List Rat
+  order : List Nat
+
+/-- a `TopKSelector(k)` object answering a history of calls, in call order -/
+def topKHistory (k : Nat) : List TopKCall → List (List Nat × List Rat)
+  | [] => []
+  | c :: cs => topK c.order k :: topKHistory k cs
+
+/-- one `GreedySelector.select` call: its number of candidates and its environment -/
+structure GreedyCall where
+  n : Nat
+  order : List Nat
+  L0 : List Nat → Rat
+  L : List (Nat × Nat) → Rat
+  bags : Nat → List Nat
+  fuel : Nat
+
+/-- a `GreedySelector(o)` object answering a history of calls (with `bagging` the random stream of
+the object continues across calls: every call has its own `bags`) -/
+def greedyHistory (o : Opts) : List GreedyCall → List Res
+  | [] => []
+  | c :: cs => greedy o c.n c.order c.L0 c.L c.bags c.fuel :: greedyHistory o cs
+
 /-! ### EnsemblePredictor: `sorted(jobs_done, key=lambda j: int(j.id.split(".")[-1]))` -/
 
 /-- `int(id.split(".")[-1])` -/
@@ -191,6 +224,14 @@ def checkTopK (losses : List Rat) (k : Nat) (idx : List Nat) (ws : List Rat) : B
   idx.all (fun i => (List.range n).all (fun j =>
     idx.contains j || decide (losses.getD i 0 ≤ losses.getD j 0))) &&
   decide (ws = List.replicate (min k n) 1)
+
+/-- every call of a history on one `TopKSelector(k)` object returned exactly the `min k n` lowest-loss
+members of the candidates of THAT call (`lossess`: the individual losses per call, `outs`: what the
+object returned per call) -/
+def checkTopKHistory (k : Nat) : List (List Rat) → List (List Nat × List Rat) → Bool
+  | [], [] => true
+  | l :: ls, o :: os => checkTopK l k o.1 o.2 && checkTopKHistory k ls os
+  | _, _ => false
 
 /-- `GreedySelector.select` returned valid, distinct, at most `bound` indices with as many positive
 weights summing to one (up to `tol`, the rounding of `counts / total`) -/
